@@ -122,7 +122,8 @@ func (g *schemaGenerator) generateReferencedType(t *schemas.Type) (codegen.Type,
 			return nil, oerr
 		}
 
-		sg = newSchemaGenerator(g.Generator, schema, fileName, output)
+		// The referenced schema's own relative references resolve against where it really is.
+		sg = newSchemaGenerator(g.Generator, schema, qualified, output)
 	}
 
 	var def *schemas.Type
